@@ -5,7 +5,7 @@ RULE = ("Scenarios come from the harness generators (one splitmix64 PRNG per sce
         "distinct = distinct hash of the scenario-definition lines (implementation answers excluded); "
         "non-trivial per kind: ")
 
-DIST_KEYS = {"cyclic", "abort", "small", "outcome", "form", "depth", "rules", "palette", "class", "prem", "gens"}
+DIST_KEYS = {"cyclic", "abort", "small", "outcome", "form", "depth", "rules", "palette", "class", "prem", "gens", "argform"}
 
 
 def _probe(name, n, size=0, opt="", **kw):
